@@ -19,7 +19,7 @@ RULE = (
     "sample or condition that is absent from this stage's rows"
 )
 ASSUMPTIONS = ["the lineage root is the screen handed to the hold-out split (what prepare_retrospective_simulation saves)"]
-REQUIRED = {"cli_prepared_lineages": {"quick": 12, "thorough": 120}, "stages_checked": {"quick": 6000, "thorough": 60000}, "stages_with_holdout_only_conditions": {"quick": 3000, "thorough": 30000}, "prediction_comparisons": {"quick": 50000, "thorough": 500000}, "cli_stages": {"quick": 400, "thorough": 4000}, "zero_row_stages": {"quick": 15, "thorough": 200}, "train_cli_runs": {"quick": 40, "thorough": 500}}
+REQUIRED = {"copies_of_stages_and_views_checked": {"quick": 300, "thorough": 5000}, "cli_prepared_lineages": {"quick": 12, "thorough": 120}, "stages_checked": {"quick": 6000, "thorough": 60000}, "stages_with_holdout_only_conditions": {"quick": 3000, "thorough": 30000}, "prediction_comparisons": {"quick": 50000, "thorough": 500000}, "cli_stages": {"quick": 400, "thorough": 4000}, "zero_row_stages": {"quick": 15, "thorough": 200}, "train_cli_runs": {"quick": 40, "thorough": 500}}
 N_LIN = {"quick": 640, "thorough": 6400}
 
 
@@ -29,6 +29,9 @@ def root_maps(root):
     for n, d, i in zip(root.treatment_mapping[0], root.treatment_mapping[1], root.treatment_mapping[2]):
         tmap[(str(n), float(d))] = int(i)
     return smap, tmap
+
+
+_N = [0]
 
 
 def check_stage(rec, stage, root, smap, tmap, what, w):
@@ -54,7 +57,29 @@ def check_stage(rec, stage, root, smap, tmap, what, w):
     lost_s = sorted(k for k, v in smap.items() if s2.get(k) != v)
     lost_t = sorted(k for k, v in tmap.items() if t2.get(k) != v)
     rec.check(not lost_s and not lost_t, "C03/mapping/root-entry-lost-%s" % (what.split(":")[0]), lambda: "%s: the stage's mappings no longer assign the lineage's id to samples %r / conditions %r" % (what, lost_s[:4], lost_t[:4]), w)
-    return bad is None and not lost_s and not lost_t
+    ok = bad is None and not lost_s and not lost_t
+    _N[0] += 1
+    if ok and stage.size and _N[0] % 5 == 0 and hasattr(stage, "plates"):
+        # a copy of the stage, or of one of its plates / row selections, made by copy.copy / copy.deepcopy / a pickle
+        # round trip (what a worker pool does with its arguments) is the same stage: same ids on the same rows
+        import copy, pickle
+
+        how = [copy.copy, copy.deepcopy, lambda o: pickle.loads(pickle.dumps(o))][(_N[0] // 5) % 3]
+        pls = stage.plates
+        sel = np.zeros(stage.size, dtype=bool)
+        sel[:: 2] = True
+        for label, obj in (("the stage", stage), ("a plate of the stage", pls[(_N[0] // 5) % len(pls)]), ("every second row of the stage", stage.subset(sel))):
+            try:
+                dup = how(obj)
+                same = np.array_equal(np.asarray(dup.sample_ids), np.asarray(obj.sample_ids)) and np.array_equal(np.asarray(dup.treatment_ids), np.asarray(obj.treatment_ids))
+                s3, t3 = root_maps(dup)
+                same = same and not [k for k, v in smap.items() if s3.get(k) != v] and not [k for k, v in tmap.items() if t3.get(k) != v]
+            except Exception as e:
+                rec.violation("C03/op/raises", "%s: copying %s raised %r" % (what, label, e), w)
+                continue
+            rec.count("copies_of_stages_and_views_checked")
+            rec.check(bool(same), "C03/ids/renumbered-copy", lambda: "%s: a copy of %s (copy / deepcopy / pickle) carries other ids or mappings than the original" % (what, label), w)
+    return ok
 
 
 def prepared_by_cli(rec, tier, rng, tmp):
